@@ -26,6 +26,7 @@
 #endif
 
 #define RT_DONE 0x7fffffffu
+enum { RT_RUN = 0, RT_SKIP = 1, RT_STOP = 2 };   /* modes of a resumable (walk scheme) thread function */
 
 /* ------------------------------------------------------------------ nondeterminism / assertions */
 #ifdef IRSEQ_NATIVE
@@ -71,7 +72,7 @@ void *memcpy(void *, const void *, __CPROVER_size_t);
 #endif
 static uint64_t rt_ghost[RT_NGHOST];   /* harness ghost state: written/read without being a scheduling point or a buffered store */
 #ifndef RT_NBANK
-#define RT_NBANK 4
+#define RT_NBANK 6
 #endif
 #ifndef RT_BANKSZ
 #define RT_BANKSZ 8
